@@ -473,6 +473,18 @@ def run_affine(case, r):
         iso.isometry = True
         iso.set_parameters_as_vector(np.array(list(t0) + list(angles)))
         r.check(np.array_equal(iso.call_array(batch), want), cell("set_parameters"), "isometry vector form [translation, angles] gives the same map with scaling 1")
+    # partial updates AFTER the map and its inverse were used: every single-parameter update on a
+    # used object gives the map (and inverse) of a fresh object with the resulting parameters
+    used = darsia.AffineTransformation(dim)
+    used.set_parameters(translation=np.full(dim, 7.0), scaling=4.0, rotation=[0.7] * len(angles))
+    cur = {"translation": np.full(dim, 7.0), "scaling": 4.0, "rotation": [0.7] * len(angles)}
+    for upd in ({"scaling": s}, {"translation": t0.copy()}, {"rotation": list(angles)}, {"scaling": 2.0 * s}, {"translation": -t0}, {"scaling": s, "translation": t0.copy()}):
+        used.call_array(batch), used.inverse_array(batch)
+        used.set_parameters(**{k: (v.copy() if isinstance(v, np.ndarray) else v) for k, v in upd.items()})
+        cur.update(upd)
+        fresh_t = darsia.AffineTransformation(dim)
+        fresh_t.set_parameters(translation=np.asarray(cur["translation"], dtype=float).copy(), scaling=cur["scaling"], rotation=list(cur["rotation"]))
+        r.check(np.array_equal(used.call_array(batch), fresh_t.call_array(batch)) and np.array_equal(used.inverse_array(batch), fresh_t.inverse_array(batch)), cell("set_parameters"), "a single-parameter update on an object whose map and inverse were already evaluated gives the map and inverse of a fresh object with those parameters", updated=sorted(upd))
     # other spellings of the same parameter values (Python / NumPy integers, float32, tuples,
     # integer arrays) describe the same map and the same inverse
     if float(s).is_integer():
